@@ -173,6 +173,52 @@ def seeded : P String := do
   let v := v.failIf (!bad.isEmpty) s!"{ctor} engine_not_seeded_from_Seeder mismatches={bad.length}/{us.length} expected={us.map (sampleDense orow)} impl={obs}"
   return v.render
 
+/-- `seededrows <ctor> rows… us… | outcomes…` : sample `i` scanned `rows[i]`; the draws are those of an mt19937 seeded with the
+    Seeder seed the object is expected to take -/
+def seededrows : P String := do
+  let ctor ← P.tok; let rows ← P.qss; let us ← P.qs; P.bar; let outs ← P.nats; P.eof
+  if us.length != outs.length || rows.length != outs.length then P.fail
+  let v : Verdict := { tag := "seeded" }
+  let cond := (rows.zip us).filter (fun (r, u) => decide (tolCmp ≤ bpMargin r u))      -- well-conditioned samples only
+  let bad := (rows.zip (us.zip outs)).filter (fun (r, u, o) => decide (tolCmp ≤ bpMargin r u) && !(intervalSpec r u o))
+  let v := v.failIf (!bad.isEmpty) s!"{ctor} engine_not_seeded_from_Seeder mismatches={bad.length}/{cond.length} impl={outs}"
+  return v.render
+
+/-- `seedvar <ctor> xs… | ys…` : a continuous posterior sample taken by two objects built under different root seeds -/
+def seedvar : P String := do
+  let ctor ← P.tok; let xs ← P.qs; P.bar; let ys ← P.qs; P.eof
+  let v : Verdict := { tag := if xs.length < 4 then "trivial" else "seedvar" }
+  let v := v.failIf (decide (4 ≤ xs.length) && xs == ys) s!"{ctor} engine_not_seeded_from_Seeder identical_posterior_sample_for_two_root_seeds entries={xs.length}"
+  return v.render
+
+def armBlock : P (List Nat × List (Rat × Rat)) := do
+  let g ← P.nats; let arms ← P.list (do let lo ← P.q; let hi ← P.q; pure (lo, hi)); pure (g, arms)
+
+/-- `fband joint|flat A… G (group… narms (lo hi)*)*G a… id us… | rews…` : Factored::Bandit::Model::sampleR / FlattenedModel::sampleR -/
+def fband : P String := do
+  let mode ← P.tok; let A ← P.nats; let blocks ← P.list armBlock; let a0 ← P.nats; let id ← P.nat; let us ← P.qs; P.bar
+  let out ← P.qs; P.eof
+  let groups := blocks.map (·.1); let arms := blocks.map (·.2)
+  if us.length != groups.length then P.fail
+  let flat := mode == "flat"
+  let comp := if flat then "Factored::Bandit::FlattenedModel::sampleR" else "Factored::Bandit::Model::sampleR"
+  let a := if flat then AITB.Factored.toFactors A id else a0
+  let v : Verdict := { tag := "fband-" ++ mode }
+  -- range safety of the arm lookup (B2/B3) on this very input
+  let v := v.failIf (!((blocks.all (fun b => decide (AITB.Factored.toIndexPartial b.1 A a < b.2.length))))) s!"{comp} arm_index_out_of_range a={a}"
+  let m := fbSampleR A groups arms a us
+  -- each group's reward lies in the support of the arm its partial action index selects and is that arm's image of the group's own draw
+  let v := if flat then
+      v.failIf (!(out.length == 1 && closeQ tolCmp (out.getD 0 0) m.sum)) s!"{comp} reward_not_from_selected_arms impl={out.map ratStr} model={ratStr m.sum}"
+    else
+      let v := v.failIf (out.length != groups.length) s!"{comp} wrong_length {out.length}"
+      (List.range groups.length).foldl (fun v i =>
+        let arm := (arms.getD i []).getD (AITB.Factored.toIndexPartial (groups.getD i []) A a) (0, 0)
+        let r := out.getD i 0
+        let v := v.failIf (!(decide (arm.1 ≤ r) && decide (r ≤ arm.2))) s!"{comp} reward_outside_arm_support group={i} r={ratStr r} arm=[{ratStr arm.1},{ratStr arm.2})"
+        v.failIf (!(closeQ tolCmp r (m.getD i 0))) s!"{comp} reward_not_from_selected_arm group={i} impl={ratStr r} model={ratStr (m.getD i 0)}") v
+  return v.render
+
 /-- `traj mdp|pomdp dense|sparse A T… Ob… s0 us… | outcomes…` : a rollout on one object; action = (sum of earlier outcomes) mod A -/
 def traj : P String := do
   let mode ← P.tok; let kind ← P.tok; let A ← P.nat
@@ -466,6 +512,9 @@ def handle (toks : List String) : String :=
     | "isprobm" :: rest => P.run isprobm rest
     | "seeded" :: rest => P.run seeded rest
     | "traj" :: rest => P.run traj rest
+    | "seededrows" :: rest => P.run seededrows rest
+    | "seedvar" :: rest => P.run seedvar rest
+    | "fband" :: rest => P.run fband rest
     | _ => none
   r.getD "bad-op"
 
